@@ -516,7 +516,6 @@ def oracle(case, obs):
     want = spec_pairs(start)
     if obs[0]["pairs"] != want:
         yield ("pairs after parsing differ from prefix resolution (want %s got %s)" % (want, obs[0]["pairs"]), 0, [])
-    redeclared = False
     for i, o in enumerate(obs):
         feats = features(o)
         if i > 0:
@@ -524,9 +523,6 @@ def oracle(case, obs):
             prev = obs[i - 1]
             before = dict(prev["view"])
             if op[0] in NS_OPS:
-                if op[0] in ("addo", "inso") and op[1] in before and before[op[1]] != op[2] and \
-                        o["outcome"] == "NoModificationAllowedErr":
-                    redeclared = True     # the open finding: _cleanNamespaces refused half-way, rule left inserted
                 if o["others"] != prev["others"]:
                     yield ("a namespace operation added or removed a rule that is not an @namespace rule", i, feats)
                 if op[0] == "del" and o["outcome"] == "ok":
@@ -567,8 +563,6 @@ def oracle(case, obs):
             if o["outcome"] not in ("ok", "skip", "IndexSizeErr", "HierarchyRequestErr", "NoModificationAllowedErr",
                                     "NamespaceErr", "SyntaxErr"):
                 yield ("operation raised %s" % o["outcome"], i, feats)
-        if redeclared:
-            feats = feats + ["after-redeclare-raised-halfway"]
         declared = set(u for _, u, _ in o["rules"])
         loose = sorted(set(p.split(":", 2)[1] for p in o["pairs"]
                            if p.split(":", 2)[1].startswith("'") and p.split(":", 2)[1] != "''"
